@@ -350,18 +350,18 @@ func (ss *SpecSet) parseFile(path string, dep bool) error {
 				cur.Sites[site] = append(cur.Sites[site], ann)
 			case "results":
 				cur.Results = splitLocs(rest)
-			case "requires", "ensures", "cover", "defines":
+			case "requires", "ensures", "cover", "defines", "assumes-pre":
 				c, err := mkClause(word, rest)
 				if err != nil {
 					return err
 				}
-				if word == "defines" {
+				if word == "defines" || word == "assumes-pre" {
 					// definitional constraint on ghost state that is used nowhere else: assumed when the body
 					// is verified, not demanded from callers (a suitable ghost value always exists)
 					c.Kind = "requires"
 					c.Assume = true
 					word = "requires"
-					cur.Assumed = append(cur.Assumed, "ghost definition in "+cur.Key+": "+rest)
+					cur.Assumed = append(cur.Assumed, "assumed at entry of "+cur.Key+" and not demanded from callers: "+rest)
 				}
 				switch word {
 				case "requires":
@@ -478,6 +478,15 @@ func (c *Contract) hasTag(tag string) bool {
 	for _, l := range c.LoopInv {
 		for _, cl := range l {
 			for _, t := range cl.Tags {
+				if t == tag {
+					return true
+				}
+			}
+		}
+	}
+	for _, l := range c.Sites {
+		for _, a := range l {
+			for _, t := range a.Cl.Tags {
 				if t == tag {
 					return true
 				}
